@@ -234,10 +234,10 @@ class Exact:
         return lib.ring_to_complex(x["c"], x["k"], self.M)
 
     def word(self, w):
-        return float(self.f(self.rw[tuple(w)]).real)
+        return float(self.f(self.rw[tuple(w)]).real) / self.weight
 
     def probs(self, w):
-        return np.array([float(self.f(x).real) for x in self.rp[tuple(w)]])
+        return np.array([float(self.f(x).real) for x in self.rp[tuple(w)]]) / self.weight
 
     @property
     def psi(self):
@@ -491,11 +491,11 @@ class EvalPool:
     def __init__(self):
         self.key, self.items = {}, []
 
-    def add(self, n, ops, words, pws):
+    def add(self, n, ops, words, pws, state=True):
         k = json.dumps([n, ops])
         if k not in self.key:
             self.key[k] = len(self.items)
-            self.items.append({"n": n, "ops": ops, "words": [], "pws": [], "ws": set(), "ps": set()})
+            self.items.append({"n": n, "ops": ops, "words": [], "pws": [], "ws": set(), "ps": set(), "state": state})
         it = self.items[self.key[k]]
         for w in words:
             if tuple(w) not in it["ws"]:
@@ -508,9 +508,11 @@ class EvalPool:
         return self.key[k]
 
     def run(self, pid, M_):
-        tc = [{"n": it["n"], "ops": it["ops"], "meas": tlc_requests(it["words"], it["pws"], True)} for it in self.items]
+        tc = [{"n": it["n"], "ops": it["ops"], "meas": tlc_requests(it["words"], it["pws"], it["state"])} for it in self.items]
         res, stats = tapeeval.evaluate(pid, tc, M_, raw=True)
-        self.ev = [Exact(it["words"], it["pws"], r["meas"], M_, True) for it, r in zip(self.items, res)]
+        # weight = total squared norm of the surviving branches (1 unless outcomes were postselected / projected away)
+        self.ev = [Exact(it["words"], it["pws"], r["meas"], M_, it["state"], weight=sum(w for _, w in r["bw"]))
+                   for it, r in zip(self.items, res)]
         return stats
 
 
